@@ -676,9 +676,10 @@ fn helper_program(trigger: usize, nest: usize, pos: usize) -> String {
     let ty = HELPER_NEST[nest].replace("X", HELPER_TRIGGERS[trigger]);
     let wrap = "#[typeshare]\npub struct Wrap<T> { pub t: T }\n";
     match pos {
-        0 => format!("{}#[typeshare]\npub struct S {{ pub f: {} }}\n", wrap, ty),
+        0 => format!("{}#[typeshare]\npub struct S {{ pub f: {}, #[serde(default)] pub g: {} }}\n", wrap, ty, ty),
         1 => format!("{}#[typeshare]\n#[serde(tag = \"t\", content = \"c\")]\npub enum E {{ V({}), W }}\n", wrap, ty),
         2 => format!("{}#[typeshare]\n#[serde(tag = \"t\", content = \"c\")]\npub enum E {{ V {{ x: {} }}, W }}\n", wrap, ty),
+        4 => format!("{}#[typeshare]\npub struct S {{ #[serde(default)] pub g: {} }}\n", wrap, ty),
         _ => format!("{}#[typeshare]\npub type Al = {};\n", wrap, ty),
     }
 }
@@ -734,6 +735,106 @@ fn helper_case2(trigger: usize, nest: usize, pos: usize) -> Option<String> {
             }
         }
     }
+    None
+}
+
+/// further C12 rules beyond "a used helper name is defined / imported":
+/// TypeScript - a type that needs a custom JSON translation (Date, a mapped Uint8Array) in code => the ReviverFunc / ReplacerFunc footer exists;
+/// Python - every TypeVar name used is declared, every function named in BeforeValidator(..) / PlainSerializer(..) is defined;
+/// Scala with a type mapping for ONE unsigned integer - the aliases of the others are still defined;
+/// Swift in one-module-per-crate mode - CodableVoid used in a module => the shared Codable.swift (written by post_generation) defines it.
+fn helper_extra(trigger: usize, nest: usize, pos: usize) -> Option<String> {
+    use std::collections::HashMap;
+    use typeshare_core::language::{Language, Python, Scala, Swift, TypeScript};
+    let src = helper_program(trigger, nest, pos);
+    let parse1 = || panic::catch_unwind(|| parse_named(&src, "f.rs")).ok().flatten().filter(|d| d.errors.is_empty());
+    let prog = src.lines().rev().take(2).collect::<Vec<_>>().into_iter().rev().collect::<Vec<_>>().join(" ");
+    // ---- TypeScript, plain and with the documented Vec<u8> mapping
+    for mapped in [false, true] {
+        if let Some(d) = parse1() {
+            let maps: HashMap<String, String> = if mapped { [("Vec<u8>".to_string(), "Uint8Array".to_string())].into_iter().collect() } else { HashMap::new() };
+            let mut out: Vec<u8> = Vec::new();
+            if (TypeScript { no_version_header: true, type_mappings: maps, ..Default::default() }).generate_types(&mut out, &HashMap::new(), d).is_ok() {
+                let out = String::from_utf8(out).unwrap();
+                let body = out.split("export const ReviverFunc").next().unwrap_or("");
+                let code: String = code_regions("typescript", body).iter().map(|(a, b)| &body[*a..*b]).collect::<Vec<_>>().join(" ");
+                for ty in ["Date", "Uint8Array"] {
+                    if token_uses(&code, ty) > 0 && !(out.contains("export const ReviverFunc") && out.contains("export const ReplacerFunc")) {
+                        return Some(format!("typescript{}: `{}` is used in the generated code of `{}` but the ReviverFunc / ReplacerFunc helpers that translate it are not emitted", if mapped { " (\"Vec<u8>\" = \"Uint8Array\")" } else { "" }, ty, prog));
+                    }
+                }
+            }
+        }
+    }
+    // ---- Scala with one unsigned integer mapped
+    if let Some(d) = parse1() {
+        let maps: HashMap<String, String> = [("U53".to_string(), "Long".to_string())].into_iter().collect();
+        let mut out: Vec<u8> = Vec::new();
+        if (Scala { package: "p.q".into(), no_version_header: true, type_mappings: maps, ..Default::default() }).generate_types(&mut out, &HashMap::new(), d).is_ok() {
+            let out = String::from_utf8(out).unwrap();
+            let code: String = code_regions("scala", &out).iter().map(|(a, b)| &out[*a..*b]).collect::<Vec<_>>().join(" ");
+            for (name, def) in [("UByte", "type UByte ="), ("UShort", "type UShort ="), ("UInt", "type UInt =")] {
+                let own = out.matches(def).count();
+                if token_uses(&code, name) > own && own == 0 { return Some(format!("scala (\"U53\" = \"Long\"): `{}` is used in the generated code of `{}` but not defined", name, prog)); }
+            }
+        }
+    }
+    // ---- Python: functions named by validators / serialisers
+    if let Some(d) = parse1() {
+        let mut out: Vec<u8> = Vec::new();
+        if (Python { no_version_header: true, ..Default::default() }).generate_types(&mut out, &HashMap::new(), d).is_ok() {
+            let out = String::from_utf8(out).unwrap();
+            for call in ["BeforeValidator(", "PlainSerializer("] {
+                let mut from = 0;
+                while let Some(i) = out[from..].find(call) {
+                    let s = from + i + call.len();
+                    let e = out[s..].find(')').map_or(out.len(), |x| s + x);
+                    let f = out[s..e].trim();
+                    if !f.is_empty() && f.chars().all(|c| c.is_ascii_alphanumeric() || c == '_') && !out.contains(&format!("def {}(", f)) {
+                        return Some(format!("python: `{}` is named in `{}{})` in the generated code of `{}` but never defined", f, call, f, prog));
+                    }
+                    from = e;
+                }
+            }
+        }
+    }
+    // ---- Swift, one module per crate: the definition lives in Codable.swift, written by post_generation
+    if let Some(d) = parse1() {
+        let mut out: Vec<u8> = Vec::new();
+        let mut sw = Swift { no_version_header: true, multi_file: true, ..Default::default() };
+        if sw.generate_types(&mut out, &HashMap::new(), d).is_ok() {
+            let out = String::from_utf8(out).unwrap();
+            let code: String = code_regions("swift", &out).iter().map(|(a, b)| &out[*a..*b]).collect::<Vec<_>>().join(" ");
+            if token_uses(&code, "CodableVoid") > 0 && !out.contains("struct CodableVoid") {
+                let dir = std::env::temp_dir().join(format!("verif-replay-helper-{}-{}-{}-{}", std::process::id(), trigger, nest, pos));
+                let _ = std::fs::remove_dir_all(&dir); std::fs::create_dir_all(&dir).unwrap();
+                let r = sw.post_generation(&dir.to_string_lossy());
+                let shared = std::fs::read_to_string(dir.join("Codable.swift")).unwrap_or_default();
+                let _ = std::fs::remove_dir_all(&dir);
+                if r.is_err() || !shared.contains("struct CodableVoid") { return Some(format!("swift (one module per crate): `CodableVoid` is used in the module generated for `{}` but the shared Codable.swift does not define it", prog)); }
+            }
+        }
+    }
+    None
+}
+/// generic parameters (Python TypeVars): a parameter that occurs only inside some container of a struct field / variant payload must still be declared
+const TYPEVAR_NEST: [&str; 8] = ["B", "Vec<B>", "Option<B>", "[B; 2]", "&'static [B]", "HashMap<String, B>", "Vec<[B; 3]>", "Wrap<B>"];
+fn typevar_case(nest: usize, shape: usize) -> Option<String> {
+    use std::collections::HashMap;
+    use typeshare_core::language::{Language, Python};
+    let ty = TYPEVAR_NEST[nest];
+    let src = match shape {
+        0 => format!("#[typeshare]\npub struct Wrap<T> {{ pub t: T }}\n#[typeshare]\npub struct S<B> {{ pub f: {} }}\n", ty),
+        1 => format!("#[typeshare]\npub struct Wrap<T> {{ pub t: T }}\n#[typeshare]\n#[serde(tag = \"t\", content = \"c\")]\npub enum E<B> {{ V({}), W }}\n", ty),
+        _ => format!("#[typeshare]\npub struct Wrap<T> {{ pub t: T }}\n#[typeshare]\n#[serde(tag = \"t\", content = \"c\")]\npub enum E<B> {{ V {{ x: {} }}, W }}\n", ty),
+    };
+    let d = panic::catch_unwind(|| parse_named(&src, "f.rs")).ok().flatten().filter(|d| d.errors.is_empty())?;
+    let mut out: Vec<u8> = Vec::new();
+    if (Python { no_version_header: true, ..Default::default() }).generate_types(&mut out, &HashMap::new(), d).is_err() { return None; }
+    let out = String::from_utf8(out).unwrap();
+    let code: String = code_regions("python", &out).iter().map(|(a, b)| &out[*a..*b]).collect::<Vec<_>>().join(" ");
+    if token_uses(&code, "B") > 0 && !out.contains("B = TypeVar(") { return Some(format!("python: the type variable `B` is used in the generated code of `{}` but never declared (`B = TypeVar(\"B\")`)", src.lines().last().unwrap_or(""))); }
+    if out.contains("TypeVar(") && !(out.contains("import TypeVar") || out.contains(", TypeVar")) { return Some("python: TypeVar is used but not imported".into()); }
     None
 }
 
@@ -1243,12 +1344,14 @@ fn main() {
             let report = |t: usize, n: usize, p: usize, m: String| { println!("WITNESS {{\"input\": {{\"trigger\": {}, \"nest\": {}, \"position\": {}}}, \"fails\": {:?}}}", t, n, p, m); std::process::exit(1); };
             if a[1] == "helper-check" {
                 let (t, n, p): (usize, usize, usize) = (a[2].parse().unwrap(), a[3].parse().unwrap(), a[4].parse().unwrap());
-                if let Some(m) = helper_case2(t, n, p) { report(t, n, p, m); }
+                if t >= 1000 { if let Some(m) = typevar_case(n, p) { report(t, n, p, m); } println!("input passes"); std::process::exit(0); }
+                if let Some(m) = helper_case2(t, n, p).or_else(|| helper_extra(t, n, p)) { report(t, n, p, m); }
                 println!("input passes"); std::process::exit(0);
             }
             let mut k = 0;
-            for t in 0..HELPER_TRIGGERS.len() { for n in 0..HELPER_NEST.len() { for p in 0..4 { k += 1; if let Some(m) = helper_case2(t, n, p) { report(t, n, p, m); } } } }
-            println!("no failing input among {} programs (8 trigger types x 9 nestings x 4 positions) x 6 languages", k);
+            for t in 0..HELPER_TRIGGERS.len() { for n in 0..HELPER_NEST.len() { for p in 0..5 { k += 1; if let Some(m) = helper_case2(t, n, p).or_else(|| helper_extra(t, n, p)) { report(t, n, p, m); } } } }
+            for n in 0..TYPEVAR_NEST.len() { for sh in 0..3 { k += 1; if let Some(m) = typevar_case(n, sh) { report(1000, n, sh, m); } } }
+            println!("no failing input among {} programs (8 trigger types x 9 nestings x 5 positions, + 8 generic-parameter nestings x 3 shapes) x 6 languages and 4 further configurations", k);
             std::process::exit(0);
         }
         Some("wire-search") | Some("wire-check") => {
